@@ -173,7 +173,7 @@ theorem parse_spec (as : Option Kind) (s : Str) :
                 · exact h7 x h
                 · obtain ⟨c, hc, rfl⟩ := List.mem_map.mp h
                   exact (validChar c (hvalid c hc)).1
-              refine Bool.and_eq_true_iff.mpr ⟨Bool.and_eq_true_iff.mpr ⟨?_, ?_⟩, ?_⟩
+              refine Bool.and_eq_true_iff.mpr ⟨Bool.and_eq_true_iff.mpr ⟨Bool.and_eq_true_iff.mpr ⟨?_, ?_⟩, ?_⟩, ?_⟩
               · rw [List.all_eq_true]
                 exact fun c hc => (validChar c (hvalid c hc)).2.1
               · unfold Lumina.Spec.C47.checksumOK Lumina.Spec.C47.polymod
@@ -187,6 +187,16 @@ theorem parse_spec (as : Option Kind) (s : Str) :
                 simp only [List.length_map, List.length_take] at this
                 rw [Nat.min_eq_left (by omega)] at this
                 simp [← this]
+              · -- the returned id is the bit-string regrouping of the payload characters
+                have hvals' : (d.take (d.length - 6)).map Lumina.Spec.C47.charValue
+                    = (d.take (d.length - 6)).map feOfCharUnchecked :=
+                  List.map_congr_left (fun c hc => (validChar c (hvalid c (List.mem_of_mem_take hc))).2.2.1)
+                have hlt' : ∀ x ∈ (d.take (d.length - 6)).map feOfCharUnchecked, x < 32 := by
+                  intro x hx
+                  obtain ⟨c, hc, rfl⟩ := List.mem_map.mp hx
+                  exact (validChar c (hvalid c (List.mem_of_mem_take hc))).1
+                rw [hvals', ← fesToBytes_eq_regroup8 _ hlt', ← hdata]
+                simp
     rcases hmain with h | ⟨k', hk', hne⟩
     · cases as with
       | none => simpa [parse, parseAddress, hst, obsOf] using h
@@ -218,5 +228,23 @@ theorem single_char_corruption_spec (k : Kind) (id : Bytes) (h : id.length = 20)
     obtain ⟨e, he⟩ := corrupt_rejected k id h pos c hpos hc
     simp [he]
   · rfl
+
+/-- the strengthened clause bites: for "celestia1qypqxpq9qcrsszg2pvxq6rs0zqg3yyc5wgawu3" the spec accepts the
+    id 01 02 … 14 and rejects any other 20-byte id (here: the last byte changed) -/
+example :
+    specParse none (Lumina.Spec.C47.str "celestia1qypqxpq9qcrsszg2pvxq6rs0zqg3yyc5wgawu3")
+      (.ok .account [1, 2, 3, 4, 5, 6, 7, 8, 9, 10, 11, 12, 13, 14, 15, 16, 17, 18, 19, 20]) = true ∧
+    specParse none (Lumina.Spec.C47.str "celestia1qypqxpq9qcrsszg2pvxq6rs0zqg3yyc5wgawu3")
+      (.ok .account [1, 2, 3, 4, 5, 6, 7, 8, 9, 10, 11, 12, 13, 14, 15, 16, 17, 18, 19, 21]) = false := by
+  decide +kernel
+
+/-- the same for the three typed parsers: a single-character corruption of a displayed address
+    is rejected by `AccAddress`, `ValAddress` and `ConsAddress` parsing as well -/
+theorem single_char_corruption_all_parsers (k : Kind) (id : Bytes) (h : id.length = 20) (pos c : Nat)
+    (hpos : pos < (addressToString k id).length) (hc : (addressToString k id)[pos]? ≠ some c)
+    (as : Option Kind) :
+    obsOf (parse as ((addressToString k id).set pos c)) = .err := by
+  obtain ⟨e, he⟩ := corrupt_rejected k id h pos c hpos hc
+  cases as <;> simp [parse, parseAddress, parseAs, he, obsOf]
 
 end Lumina.Props.C47
